@@ -122,8 +122,8 @@ def addTargets : Host → List Nat
   | .seq a b => addTargets a ++ addTargets b
   | .addR h _ _ => [h]
   | .ifc _ _ _ _ body => addTargets body
-  | .loop _ _ _ body => addTargets body
-  | .loopBody _ _ _ body => addTargets body
+  | .loop _ _ _ _ body => addTargets body
+  | .loopBody _ _ _ _ body => addTargets body
   | .foreach _ _ body => addTargets body
   | .loopUntil _ body _ _ cl => addTargets body ++ addTargets cl
   | .tryUntil _ body => addTargets body
@@ -434,10 +434,10 @@ theorem buildLoop_writes {a : List Bool} {H : List (Reg × Bool)} {tg : List Nat
 /-- shared shape of `loop`, `loopBody`, `foreach` -/
 theorem loopShape_writes {m m1 m2 : Mem} {i : Nat} {s e d : Int} {cs : List PCmd} {b : Bool}
     {H : List (Reg × Bool)} {tg : List Nat}
-    (h1 : takeReg m = .ok (m1, i))
+    {rg : Option Nat} (h1 : takeAt m rg = .ok (m1, i))
     (ih : WritesOK (bindHandle m1 (R i) b).active H tg cs) :
     WritesOK m.active H tg (buildLoop m2 s e d (R i) cs).2 := by
-  have s1 := takeReg_spec h1
+  have s1 := takeAt_spec h1
   refine buildLoop_writes m2 s e d i cs ⟨rfl, s1.1⟩ ?_
   refine ih.mono ?_ (fun _ _ h => h) (fun _ h => h)
   intro j hj
@@ -523,7 +523,7 @@ theorem emit_writes : ∀ (op : Host) (m m' : Mem) (cs : List PCmd), Completed o
           rw [a1] at ws
           refine WritesOK.append (WritesOK.append (WritesOK.of_tmp ws) wb) ?_
           intro c hc' x hx; simp at hc'; subst hc'; simp [writeOf] at hx
-  | loop s e d body ih =>
+  | loop rg s e d body ih =>
     intro m m' cs hc h
     simp only [emit] at h
     split at h
@@ -538,7 +538,7 @@ theorem emit_writes : ∀ (op : Host) (m m' : Mem) (cs : List PCmd), Completed o
           cases h
           rw [(release_same h4).handles, (buildLoop_sameL _ _ _ _ _ _).handles]
           exact loopShape_writes h1 (ih _ _ _ hc h2)
-  | loopBody s e d body ih =>
+  | loopBody rg s e d body ih =>
     intro m m' cs hc h
     simp only [emit] at h
     split at h
@@ -569,7 +569,7 @@ theorem emit_writes : ∀ (op : Host) (m m' : Mem) (cs : List PCmd), Completed o
           · rename_i m4 h4
             cases h
             rw [(release_same h4).handles, (buildLoop_sameL _ _ _ _ _ _).handles]
-            exact loopShape_writes h1 (ih _ _ _ hc h2)
+            exact loopShape_writes (rg := none) h1 (ih _ _ _ hc h2)
   | loopUntil n body ef ev cl ihb ihc =>
     intro m m' cs hc h
     simp only [emit] at h
